@@ -31,7 +31,7 @@ class L2:
             self._ideal_random_bits()
         if ideal_zero_test and env.mode == 'sym':      # replays run the real prod / is_zero_public
             self._ideal_zero_test()
-        if ideal_cmp:
+        if ideal_cmp and env.mode == 'sym':            # replays run the real comparison protocol
             self._ideal_comparisons()
         if public_reciprocal:
             self._public_reciprocal()
@@ -73,7 +73,12 @@ class L2:
         def is_zero_public(a):
             def iszero(x):
                 return kit.fval(x) == 0
-            e = a.e if isinstance(a, ProdObj) else a.share.e
+            if isinstance(a, ProdObj):
+                e = a.e
+            elif isinstance(getattr(a, 'share', None), ProdObj):
+                e = a.share.e
+            else:
+                e = [a]         # plain secure number: contract "result == (value is zero)"
             return asyncoro._AwaitableFuture(env.any(iszero(x) for x in e))
         mpc.is_zero_public = is_zero_public
         for cls in (sectypes.SecureInteger, sectypes.SecureFixedPoint):
